@@ -570,6 +570,58 @@ def rule_norec(repo):
 
 
 @guarded
+def rule_framefn(repo):
+    """_frame gives a per-item state (B, H) the frame axis of the (B, F, H) increments and returns anything else as it is.  It selects nothing: a slice of the last
+    frame (`state[..., -1:, :]`, to accept whole trajectories) taken before the axis is inserted cuts a (B, H) state down to its last BATCH item."""
+    res = RuleResult('C16.FRAMEFN', 'IMUPreintegrator._frame only inserts the frame axis (unsqueeze(-2) / [..., None, :]) into a rank-2 state: it takes no slice of its '
+                     'argument', floor=1)
+    f = repo.func(IMU, CLS + '._frame')
+    p0 = f.pos_params[-1]
+    subs = [n for n in ast.walk(f.node) if isinstance(n, ast.Subscript) and isinstance(n.ctx, ast.Load) and
+            any(isinstance(x, ast.Slice) and (x.lower is not None or x.upper is not None) for x in ast.walk(n.slice))]
+    ins = [n for n in ast.walk(f.node) if (isinstance(n, ast.Call) and isinstance(n.func, ast.Attribute) and n.func.attr == 'unsqueeze') or
+           (isinstance(n, ast.Subscript) and any(isinstance(x, ast.Constant) and x.value is None for x in ast.walk(n.slice)))]
+    res.inst({'function': f.fq, 'frame-axis insertions': len(ins), 'slices of the argument': [src(x)[:30] for x in subs]}, f.fq)
+    if not ins:
+        raise AnalysisError('C16.FRAMEFN: _frame no longer inserts a frame axis')
+    for x in subs:
+        res.add(Finding('C16.FRAMEFN', f, '_frame takes `%s` from its argument: for the documented per-item state (B, H) the last-frame slice selects the last batch ITEM, and '
+                        'every item of the batch is then propagated from that one state' % src(x)[:40], node=x, construct='_frame slices its argument'))
+    return res
+
+
+@guarded
+def rule_carrylast(repo):
+    """The carried state (pos, rot, vel, cov, Rij) is written once, at the end of forward(), from the results of the call.  integrate / propagate_cov / predict
+    validate shapes and can raise; a write of the carried state in front of them (the caller's init_state loaded into the module "so that everything reads one
+    place", to be restored at the end) is left behind by every exception, and the next call without init_state starts from it."""
+    res = RuleResult('C16.CARRYLAST', 'IMUPreintegrator.forward writes its carried state (self.pos / rot / vel / cov / Rij) only after the last of its fallible steps '
+                     '(integrate, propagate_cov, predict)', floor=1)
+    f = repo.func(IMU, CLS + '.forward')
+    steps = [c.lineno for c in paths.calls_in(f.node) if dotted(c.func) in ('self.integrate', 'self.propagate_cov', 'self.predict', 'cls.predict')]
+    if not steps:
+        raise AnalysisError('C16.CARRYLAST: the integration steps of forward were not found')
+    last = max(steps)
+    n = 0
+    for a in ast.walk(f.node):
+        if isinstance(a, (ast.Assign, ast.AugAssign)):
+            tg = a.targets if isinstance(a, ast.Assign) else [a.target]
+            for t in tg:
+                for x in ([t] if not isinstance(t, ast.Tuple) else t.elts):
+                    if isinstance(x, ast.Attribute) and dotted(x.value) == 'self' and x.attr in ('pos', 'rot', 'vel', 'cov', 'Rij'):
+                        n += 1
+                        ok = a.lineno > last
+                        res.inst({'function': f.fq, 'write': src(a)[:50], 'after the fallible steps': ok}, (f.fq, src(a)[:50]))
+                        if not ok:
+                            res.add(Finding('C16.CARRYLAST', f, '`%s` overwrites carried state before integrate / propagate_cov / predict have run: when one of them raises '
+                                            '(a rot or acc one frame short) the module keeps this value, and the next call that relies on the carried state starts from the '
+                                            'rejected call\'s input' % src(a)[:50], node=a, construct='carried state written early|' + x.attr))
+    if n == 0:
+        raise AnalysisError('C16.CARRYLAST: forward no longer writes the carried state')
+    return res
+
+
+@guarded
 def rule_recur(repo):
     """dp <- dp + dv dt + 1/2 dR a dt^2 with dv the ACCUMULATED velocity increment and dR the ACCUMULATED rotation: in the vectorised form the position
     summand of frame k multiplies dt with the k-th entry of the cumulative velocity table (the output of the cumsum scan), and the acceleration terms are
@@ -613,7 +665,7 @@ def _rules_core(repo, tier):
     from ..effects import rule_pure
     from ..fresh import rule_fresh
     t = [(IMU, CLS + '.forward'), (IMU, CLS + '.integrate'), (IMU, CLS + '.predict'), (IMU, CLS + '.propagate_cov'), (IMU, CLS + '._check')]
-    return [rule_grav(repo), rule_scan(repo), rule_recur(repo), rule_bufcopy(repo), rule_norec(repo), rule_stateax(repo), rule_covord(repo), rule_carry(repo), rule_rank(repo), rule_dir_comp(repo), rule_dep(repo), rule_init(repo), rule_cov(repo),
+    return [rule_grav(repo), rule_scan(repo), rule_recur(repo), rule_bufcopy(repo), rule_norec(repo), rule_framefn(repo), rule_carrylast(repo), rule_stateax(repo), rule_covord(repo), rule_carry(repo), rule_rank(repo), rule_dir_comp(repo), rule_dep(repo), rule_init(repo), rule_cov(repo),
             rule_pure(repo, 'C16.PURE', 'the integrator does not write in place into the measurement tensors it is given (dt, gyro, acc, rot, init_state): '
                       'feeding the same stream again, whole or in chunks, starts from the same data', t),
             rule_fresh(repo, 'C16.FRESH', 'nothing the integrator writes in place is loaded from the integrator object (the carried state is rebound, '
